@@ -1,6 +1,9 @@
 import BasicModel.Lemmas.Link
 import BasicModel.Lemmas.Control
 import BasicModel.Lemmas.ExprCompile
+import BasicModel.Lemmas.StructCompile
+import BasicModel.Lemmas.StructCodegen
+import BasicModel.Lemmas.StructLink
 /-
   C01 — Compiled execution follows the documented control-flow semantics (floor).
 
@@ -14,8 +17,14 @@ import BasicModel.Lemmas.ExprCompile
   (`compileExpr_shape`) and the VM, run on that code, pushes the value the direct evaluator
   `Spec.eval` assigns to the tree, or stops in the same error (`compileExpr_correct`).
 
-  (The per-statement / whole-program simulation theorems of DESIGN.md are targets, not proved in
-  this file.)
+  Structured statements (last two sections): LET, `:`, IF-THEN(-ELSE), WHILE-WEND and FOR-NEXT with
+  pure expressions have a big-step semantics on the variable store (`Spec/Struct.lean`); their linked
+  code `compile p a` implements it (`structured_correct`, by the block calculus `block_rules`); the
+  generator emits the fragments `FragShape` for them and the linker turns those, on a clean link, into
+  `compile p a` (`structured_codegen_shape`, `structured_linked`, `one_line_program_correct`).
+  Statements outside that fragment (GOTO into or out of a block, NEXT with another or no variable,
+  arrays, PRINT, …) and structured statements spread over several lines of a larger program are
+  not covered by the compositional theorems.
 -/
 namespace Basic
 namespace Thm.C01
@@ -324,6 +333,328 @@ example : exErr (runOps exEnv true (flat exBad) (exRun (flat exBad))) = some (Er
 example : (runOps exEnv true (flat exBad) (exRun (flat exBad))).2.vars.vars = [("A%".toList, .int 20)] := by decide
 
 end expressions
+
+/-! ### structured statements: the compiled code follows the big-step semantics
+
+  `Spec/Struct.lean` gives LET / `:` / IF-THEN(-ELSE) / WHILE-WEND / FOR-NEXT a big-step semantics on
+  the variable store (`Spec.exec`, fuel-indexed, written from the manual); `Lemmas/StructCompile.lean`
+  gives the linked code of such a statement placed at address `a` (`compile p a`, jump targets
+  absolute) and proves, rule by rule, that the code implements the semantics. -/
+
+section structured
+open Basic.Spec Basic.Lemmas.ExprCompile Basic.Lemmas.StructCompile
+
+/-- **Compiled structured statements follow the documented control flow.**  Let the code of `p` lie at
+    `s.pc` in the code segment of a machine `s` — trace off, `size p` free stack slots (a crude bound),
+    and jumps not gated (no compile errors in the stored program, or the code is direct-mode code).
+    * If the semantics answers `.ok σ'` (with any fuel), some number of steps — all answering
+      `continue` — lead to the state `s` with `pc` past the code and `vars := σ'`: the stack and every
+      other component are as in `s`.
+    * If it answers `.error e`, after some steps answering `continue` a step fails with exactly `e`.
+    (The sign of a FOR step is `Spec.stepNeg`: the step converted to Double, compared with 0.) -/
+theorem structured_correct (env : Env) (hie : Bool) (fuel : Nat) (p : SStmt) (hp : p.Pure) (s : Runtime)
+    (hcode : CodeAt s.program.link.ops s.pc (compile p s.pc)) (htr : s.tron = false)
+    (hroom : s.stack.size + size p ≤ 65535) (hgate : hie = false ∨ s.entryAddress ≤ s.pc) :
+    (∀ σ', exec fuel s.vars p = some (.ok σ') →
+      ∃ n, runSteps env hie n s = (.ok .continue, { s with pc := s.pc + size p, vars := σ' })) ∧
+    (∀ e, exec fuel s.vars p = some (.error e) → ∃ n s', runSteps env hie n s = (.error e, s')) := by
+  have hpl : Placed hie (compile p) s := ⟨hcode, htr, by rw [compile_length]; exact hroom, hgate⟩
+  have h := exec_implemented env hie fuel p hp s hpl
+  rw [compile_length] at h
+  exact ⟨fun σ' hσ => h _ hσ, fun e he => h _ he⟩
+
+/-- the block calculus behind it (see `Lemmas/StructCompile.lean` for `Implements`, `Placed`, `Ends`):
+    the rules for LET, `:`, IF-THEN, IF-THEN-ELSE, WHILE (one unrolling / `n` tests) and FOR (`n` passes) -/
+theorem block_rules (env : Env) (hie : Bool) :
+    (∀ (name : Str) {e : Expr}, Spec.Pure e →
+      Implements env hie (fun _ => flat e ++ [Opcode.pop name]) (assignT name e)) ∧
+    (∀ {c1 c2 : Nat → List Opcode} {f1 f2 : Trans} (l1 : Nat), (∀ a, (c1 a).length = l1) →
+      Implements env hie c1 f1 → Implements env hie c2 f2 →
+      Implements env hie (fun a => c1 a ++ c2 (a + l1)) (seqT f1 f2)) ∧
+    (∀ {c : Expr}, Spec.Pure c → ∀ {c1 : Nat → List Opcode} {f1 : Trans} (l1 : Nat), (∀ a, (c1 a).length = l1) →
+      Implements env hie c1 f1 → Implements env hie (ifThenCode c l1 c1) (iteT c f1 skipT)) ∧
+    (∀ {c : Expr}, Spec.Pure c → ∀ {c1 c2 : Nat → List Opcode} {f1 f2 : Trans} (l1 l2 : Nat),
+      (∀ a, (c1 a).length = l1) → (∀ a, (c2 a).length = l2) →
+      Implements env hie c1 f1 → Implements env hie c2 f2 →
+      Implements env hie (ifElseCode c l1 l2 c1 c2) (iteT c f1 f2)) ∧
+    (∀ {c : Expr}, Spec.Pure c → ∀ {body : Nat → List Opcode} {fb g : Trans} (lb : Nat), (∀ a, (body a).length = lb) →
+      Implements env hie body fb → Implements env hie (whileCode c lb body) g →
+      Implements env hie (whileCode c lb body) (whileStepT c fb g)) ∧
+    (∀ {c : Expr}, Spec.Pure c → ∀ {body : Nat → List Opcode} {fb : Trans} (lb : Nat), (∀ a, (body a).length = lb) →
+      Implements env hie body fb → ∀ n, Implements env hie (whileCode c lb body) (whileT c fb n)) ∧
+    (∀ {a b st : Expr}, Spec.Pure a → Spec.Pure b → Spec.Pure st → ∀ {body : Nat → List Opcode} {fb : Trans} (lb : Nat),
+      (∀ x, (body x).length = lb) → Implements env hie body fb → ∀ (name : Str) (n : Nat),
+      Implements env hie (forCode name a b st body) (forT stepNeg name a b st fb n)) :=
+  ⟨fun name _ hp => implements_assign env hie name hp,
+   fun l1 hl1 h1 h2 => implements_seq l1 hl1 h1 h2,
+   fun hp _ _ l1 hl1 h1 => implements_ifThen hp l1 hl1 h1,
+   fun hp _ _ _ _ l1 l2 hl1 hl2 h1 h2 => implements_ifThenElse hp l1 l2 hl1 hl2 h1 h2,
+   fun hp _ _ _ lb hlb hb hg => implements_whileStep hp lb hlb hb hg,
+   fun hp _ _ lb hlb hb n => implements_while hp lb hlb hb n,
+   fun hpa hpb hps _ _ lb hlb hb name n => implements_for hpa hpb hps lb hlb hb name n⟩
+
+/-- what `Implements` says, spelled out -/
+theorem implements_iff (env : Env) (hie : Bool) (code : Nat → List Opcode) (f : Trans) :
+    Implements env hie code f ↔
+      ∀ (s : Runtime), CodeAt s.program.link.ops s.pc (code s.pc) → s.tron = false →
+        s.stack.size + (code s.pc).length ≤ 65535 → (hie = false ∨ s.entryAddress ≤ s.pc) →
+        (∀ σ', f s.vars = some (.ok σ') →
+          ∃ n, runSteps env hie n s = (.ok .continue, { s with pc := s.pc + (code s.pc).length, vars := σ' })) ∧
+        (∀ e, f s.vars = some (.error e) → ∃ n s', runSteps env hie n s = (.error e, s')) := by
+  constructor
+  · intro h s hc ht hr hg
+    exact ⟨fun σ' hσ => h s ⟨hc, ht, hr, hg⟩ _ hσ, fun e he => h s ⟨hc, ht, hr, hg⟩ _ he⟩
+  · intro h s hpl r hr
+    obtain ⟨h1, h2⟩ := h s hpl.hcode hpl.htron hpl.hroom hpl.hgate
+    cases r with
+    | ok σ' => exact h1 σ' hr
+    | error e => exact h2 e hr
+
+/-- **FOR, the documented iteration** (Integer reading): with an Integer loop variable (suffix `%`),
+    Integer limit `t` and Integer step `k` whose sign the oracle knows, and a body that leaves the loop
+    variable as it found it, the passes of the loop are `Spec.intFor`: body; counter + step (16-bit,
+    else OVERFLOW); stored; the loop is left when the new value has passed the limit in the direction
+    of the step's sign, else the body runs again.  The body runs at least once. -/
+theorem for_integer (neg : Val → Option Bool) (f : Trans) (name : Str) (t k : Int16)
+    (hneg : neg (.int k) = some (decide (k < 0))) (hty : Var.suffixTy name = some .integer)
+    (hkeep : ∀ σ σ', f σ = some (.ok σ') → σ'.fetch name = σ.fetch name)
+    (n : Nat) (i : Int16) (σ : Var) (hi : σ.fetch name = .ok (.int i)) :
+    forIter neg f name (.int t) (.int k) n σ = intFor f name t k n i σ :=
+  forIter_int neg f name t k hneg hty hkeep n i σ hi
+
+/-- answers computed with a sign oracle that knows less are answers of `exec` -/
+theorem exec_of_oracle {neg' : Val → Option Bool} (hn : NegLe neg' stepNeg) (fuel : Nat) (p : SStmt) (σ : Var)
+    (r : Res Var) (h : execWith neg' fuel σ p = some r) : exec fuel σ p = some r :=
+  execWith_mono hn fuel p σ r h
+
+/-! non-vacuity: three small Integer programs on hand-built machines -/
+
+/-- the variable `n` (Integer) -/
+def vI (n : String) : Expr := .var (.unary (0, 0) (.integer n.toList))
+/-- the Integer literal `k` -/
+def cI (k : Int16) : Expr := .integer (0, 0) k
+
+/-- `IF A% > 10 THEN B% = 1 ELSE B% = 2` -/
+def exIf : SStmt :=
+  .ifThenElse (.bin .greater (0, 0) (vI "A%") (cI 10)) (.assign "B%".toList (cI 1)) (.assign "B%".toList (cI 2))
+/-- `WHILE I% < 3 : I% = I% + 1 : WEND` -/
+def exWhile : SStmt :=
+  .while (.bin .less (0, 0) (vI "I%") (cI 3)) (.assign "I%".toList (.bin .add (0, 0) (vI "I%") (cI 1)))
+/-- `S% = 0 : FOR I% = 1 TO 3 STEP 1 : S% = S% + I% : NEXT I%` -/
+def exFor : SStmt :=
+  .seq (.assign "S%".toList (cI 0))
+    (.for "I%".toList (cI 1) (cI 3) (cI 1) (.assign "S%".toList (.bin .add (0, 0) (vI "S%") (vI "I%"))))
+/-- `FOR I% = 32767 TO 0 STEP 1 : S% = 1 : NEXT I%`: the start is past the limit, the body runs once all
+    the same, and NEXT overflows the Integer loop variable -/
+def exOver : SStmt := .for "I%".toList (cI 32767) (cI 0) (cI 1) (.assign "S%".toList (cI 1))
+
+/-- a machine with `p`'s code at address 2, one value on the stack and the given variables -/
+def exMach (p : SStmt) (vars : List (Str × Val)) : Runtime :=
+  { program := { link := { ops := #[.end, .end] ++ (compile p 2).toArray ++ #[.end] } },
+    pc := 2, stack := #[.int 7], vars := { vars := vars } }
+
+theorem exMach_placed (p : SStmt) (vars : List (Str × Val)) (h : size p ≤ 60000) :
+    CodeAt (exMach p vars).program.link.ops (exMach p vars).pc (compile p (exMach p vars).pc) ∧
+    (exMach p vars).tron = false ∧ (exMach p vars).stack.size + size p ≤ 65535 ∧
+    ((false : Bool) = false ∨ (exMach p vars).entryAddress ≤ (exMach p vars).pc) :=
+  ⟨CodeAt.of_append #[.end, .end] #[.end] (compile p 2), rfl, by show 1 + size p ≤ 65535; omega, .inl rfl⟩
+
+/-- the variables of a successful answer -/
+def okVars (x : Option (Res Var)) : Option (List (Str × Val)) := (x.bind (·.toOption)).map (·.vars)
+
+/-- the error of a failing answer -/
+def errOf (x : Option (Res Var)) : Option Error :=
+  match x with
+  | some (.error e) => some e
+  | _ => none
+
+theorem exists_of_okVars {x : Option (Res Var)} {l : List (Str × Val)} (h : okVars x = some l) :
+    ∃ σ', x = some (.ok σ') ∧ σ'.vars = l := by
+  unfold okVars at h
+  cases x with
+  | none => cases h
+  | some r =>
+    cases r with
+    | error e => cases h
+    | ok σ' => exact ⟨σ', rfl, by simpa [Except.toOption] using h⟩
+
+/-- what the theorem gives for a concrete machine once the semantics has been evaluated -/
+theorem exMach_runs (p : SStmt) (hp : p.Pure) (vars l : List (Str × Val)) (hsz : size p ≤ 60000) (fuel : Nat)
+    (h : okVars (exec fuel { vars := vars } p) = some l) :
+    ∃ n σ', runSteps exEnv false n (exMach p vars) =
+      (.ok .continue, { exMach p vars with pc := 2 + size p, vars := σ' }) ∧ σ'.vars = l := by
+  obtain ⟨σ', hσ, hl⟩ := exists_of_okVars h
+  obtain ⟨hc, ht, hr, hg⟩ := exMach_placed p vars hsz
+  obtain ⟨n, hn⟩ := (structured_correct exEnv false fuel p hp (exMach p vars) hc ht hr hg).1 σ' hσ
+  exact ⟨n, σ', hn, hl⟩
+
+example : exIf.Pure ∧ exWhile.Pure ∧ exFor.Pure ∧ exOver.Pure := by decide
+
+/-- the code: jump targets are absolute addresses -/
+example : compile exIf 2 =
+    [.push "A%".toList, .literal (.int 10), .gt, .ifNot 9, .literal (.int 1), .pop "B%".toList, .jump 11,
+     .literal (.int 2), .pop "B%".toList] := by decide
+example : compile exWhile 2 =
+    [.push "I%".toList, .literal (.int 3), .lt, .ifNot 11, .push "I%".toList, .literal (.int 1), .add,
+     .pop "I%".toList, .jump 2] := by decide
+example : compile exFor 2 =
+    [.literal (.int 0), .pop "S%".toList, .literal (.int 1), .pop "I%".toList, .literal (.int 3), .literal (.int 1),
+     .literal (.str "I%".toList), .literal (.nxt 10), .push "S%".toList, .push "I%".toList, .add, .pop "S%".toList,
+     .next "I%".toList] := by decide
+
+/-- IF, both branches: the semantics … -/
+example : okVars (exec 5 { vars := [("A%".toList, .int 20)] } exIf) =
+    some [("B%".toList, .int 1), ("A%".toList, .int 20)] := by decide
+example : okVars (exec 5 { vars := [("A%".toList, .int 5)] } exIf) =
+    some [("B%".toList, .int 2), ("A%".toList, .int 5)] := by decide
+/-- … the theorem applied to the machine … -/
+example : ∃ n σ', runSteps exEnv false n (exMach exIf [("A%".toList, .int 20)]) =
+    (.ok .continue, { exMach exIf [("A%".toList, .int 20)] with pc := 11, vars := σ' }) ∧
+    σ'.vars = [("B%".toList, .int 1), ("A%".toList, .int 20)] :=
+  exMach_runs exIf (by decide) _ _ (by decide) 5 (by decide)
+/-- … and the machine itself, run by the kernel (THEN branch: 7 steps, ELSE branch: 6 steps) -/
+example : (runSteps exEnv false 7 (exMach exIf [("A%".toList, .int 20)])).2.vars.vars =
+    [("B%".toList, .int 1), ("A%".toList, .int 20)] ∧
+    (runSteps exEnv false 7 (exMach exIf [("A%".toList, .int 20)])).2.pc = 11 ∧
+    (runSteps exEnv false 7 (exMach exIf [("A%".toList, .int 20)])).2.stack = #[.int 7] := by decide
+example : (runSteps exEnv false 6 (exMach exIf [("A%".toList, .int 5)])).2.vars.vars =
+    [("B%".toList, .int 2), ("A%".toList, .int 5)] ∧
+    (runSteps exEnv false 6 (exMach exIf [("A%".toList, .int 5)])).2.pc = 11 := by decide
+/-- a string condition is TYPE MISMATCH, in the semantics and on the machine -/
+example : errOf (exec 5 { vars := [] } (.ifThen (.string (0, 0) ['x']) (.assign "B%".toList (cI 1)))) =
+    some (Error.mk' Code.typeMismatch) := by decide
+example : exErr (runSteps exEnv false 2 (exMach (.ifThen (.string (0, 0) ['x']) (.assign "B%".toList (cI 1))) [])) =
+    some (Error.mk' Code.typeMismatch) := by decide
+
+/-- WHILE counts to 3: semantics, theorem, machine (3 passes of 9 steps and the final test of 4) -/
+example : okVars (exec 6 { vars := [] } exWhile) = some [("I%".toList, .int 3)] := by decide
+example : ∃ n σ', runSteps exEnv false n (exMach exWhile []) =
+    (.ok .continue, { exMach exWhile [] with pc := 11, vars := σ' }) ∧ σ'.vars = [("I%".toList, .int 3)] :=
+  exMach_runs exWhile (by decide) _ _ (by decide) 6 (by decide)
+example : (runSteps exEnv false 31 (exMach exWhile [])).2.vars.vars = [("I%".toList, .int 3)] ∧
+    (runSteps exEnv false 31 (exMach exWhile [])).2.pc = 11 ∧
+    (runSteps exEnv false 31 (exMach exWhile [])).2.stack = #[.int 7] := by decide
+/-- a WHILE whose condition is false at once runs no pass -/
+example : okVars (exec 6 { vars := [("I%".toList, .int 9)] } exWhile) = some [("I%".toList, .int 9)] := by decide
+
+/-- FOR: `Float` is opaque to the kernel, so the sign of the step `1` (`F.i2d 1 < 0` is false on every
+    IEEE machine) is a hypothesis; with it `S% = 6`, `I% = 4`, the frame is gone and the stack is as before -/
+example : okVars (execWith (oneStep 1 false) 6 { vars := [] } exFor) =
+    some [("I%".toList, .int 4), ("S%".toList, .int 6)] := by decide
+example (h : stepNeg (.int 1) = some false) : ∃ n σ', runSteps exEnv false n (exMach exFor []) =
+    (.ok .continue, { exMach exFor [] with pc := 15, vars := σ' }) ∧
+    σ'.vars = [("I%".toList, .int 4), ("S%".toList, .int 6)] := by
+  have hx : okVars (exec 6 { vars := [] } exFor) = some [("I%".toList, .int 4), ("S%".toList, .int 6)] := by
+    have hd : okVars (execWith (oneStep 1 false) 6 { vars := [] } exFor) =
+        some [("I%".toList, .int 4), ("S%".toList, .int 6)] := by decide
+    obtain ⟨σ', hσ, hl⟩ := exists_of_okVars hd
+    rw [exec_of_oracle (negLe_oneStep h) 6 exFor _ _ hσ]
+    simpa [okVars, Except.toOption] using hl
+  exact exMach_runs exFor (by decide) _ _ (by decide) 6 hx
+/-- the body runs at least once, and an Integer loop variable that overflows stops the loop with OVERFLOW -/
+example : errOf (execWith (oneStep 1 false) 3 { vars := [] } exOver) = some (Error.mk' Code.overflow) := by decide
+/-- the Integer reading at work: three passes from 1 to 3 by 1 -/
+example : okVars (intFor (assignT "S%".toList (.bin .add (0, 0) (vI "S%") (vI "I%"))) "I%".toList 3 1 5 1
+    { vars := [("I%".toList, .int 1)] }) = some [("I%".toList, .int 4), ("S%".toList, .int 6)] := by decide
+
+end structured
+
+/-! ### structured statements: what the generator and the linker produce
+
+  `Lemmas/StructCodegen.lean`: the statement fragments the visitor pushes for a structured statement
+  (`AStmt` = `SStmt` with the columns and identifiers of the AST; `FragShape`).
+  `Lemmas/StructLink.lean`: appended to a CLEAN link (no pending references, WHILE marks or local
+  labels: an empty program with its line label, or a linked program) and linked, those fragments ARE
+  `compile p a`.  Scope: the statement is the whole line — one-line programs and direct-mode lines; a
+  FOR / WHILE spread over several program lines among other statements is NOT covered (the linker
+  invariants of arbitrary surrounding code live in the other lemma chain). -/
+
+section generated
+open Basic.Spec Basic.Lemmas.ExprCompile Basic.Lemmas.StructCompile Basic.Lemmas.StructCodegen Basic.Lemmas.StructLink
+open Basic.Codegen
+
+/-- **Codegen shape.**  Visiting the statement list of a structured statement (pure expressions, names
+    that are no zero-argument built-ins, code that fits the code segment) pushes its fragments on the
+    statement stack, in order — `whileFrag`, `wendFrag`, `forFrag`, `plain #[next v]`, `ifFrag` built from
+    the fragments of its parts, `plain (flat e ++ [pop v])` —, reports nothing and leaves the other
+    stacks and the fragment under construction alone. -/
+theorem structured_codegen_shape (p : AStmt) (hp : p.erase.Pure) (hn : p.Named) (hsz : size p.erase ≤ 65535)
+    (v : Array VarItem) (ex st : Array (Col × Link)) (cur : Link) (errs : List Error) :
+    ∃ frs : List (Col × Link), FragShape p (frs.map (·.2)) ∧
+      acceptStmts p.stmts ⟨⟨v, ex, st, cur⟩, errs⟩ = ⟨⟨v, ex, st ++ frs.toArray, cur⟩, errs⟩ :=
+  acceptStmts_shape p hp hn hsz v ex st cur errs
+
+/-- `Codegen.codegen` appends those fragments to the program's link and reports nothing -/
+theorem structured_codegen (p : AStmt) (hp : p.erase.Pure) (hn : p.Named) (l0 : Link)
+    (hsz : l0.ops.size + size p.erase ≤ 65535) (hdd : l0.data.size ≤ 65535) :
+    ∃ fs, FragShape p fs ∧ Codegen.codegen l0 p.stmts = (appendAllL l0 fs, []) :=
+  codegen_struct p hp hn l0 hsz hdd
+
+/-- **Linking.**  The fragments of a structured statement appended to a clean link, followed by any
+    raw ops, link to `compile p a` at their address `a`; the raw ops follow unchanged. -/
+theorem structured_linked (p : AStmt) (fs : List Link) (h : FragShape p fs) (l0 : Link) (hc : Clean l0)
+    (post : Array Opcode) :
+    CodeAt ((appendAllL l0 fs).pushOps post).link.1.ops l0.ops.size (compile p.erase l0.ops.size) ∧
+    ∀ k, ((appendAllL l0 fs).pushOps post).link.1.ops[l0.ops.size + size p.erase + k]? = post[k]? :=
+  struct_linked p fs h l0 hc post
+
+/-- **A one-line program, end to end.**  Let the line `n <tokens>` parse to the statement list of a
+    structured statement `p`, and let `s` be a machine that holds the compiled program
+    (`Program.compile`), stands at address 0 with trace off, room on the stack, and a stored program
+    without compile errors (`hie = false`).  Then the run follows `Spec.exec`: see `structured_correct`. -/
+theorem one_line_program_correct (env : Env) (n : Nat) (toks : List Token) (p : AStmt)
+    (hparse : Parse.parse (some n) toks = .ok p.stmts) (hp : p.erase.Pure) (hn : p.Named)
+    (hsz : size p.erase ≤ 65535) (fuel : Nat) (s : Runtime)
+    (hprog : s.program = Program.compile [⟨some n, toks⟩]) (hpc : s.pc = 0) (htr : s.tron = false)
+    (hroom : s.stack.size + size p.erase ≤ 65535) :
+    (∀ σ', exec fuel s.vars p.erase = some (.ok σ') →
+      ∃ k, runSteps env false k s = (.ok .continue, { s with pc := s.pc + size p.erase, vars := σ' })) ∧
+    (∀ e, exec fuel s.vars p.erase = some (.error e) → ∃ k s', runSteps env false k s = (.error e, s')) := by
+  have hcode := compile_one_line n toks p hparse hp hn hsz
+  rw [← hprog, ← hpc] at hcode
+  exact structured_correct env false fuel p.erase hp s hcode htr hroom (.inl rfl)
+
+/-! non-vacuity: the generator and the linker of the model, run by the kernel on the FOR program, a
+    nested WHILE / IF and an IF-THEN-ELSE, against `compile` -/
+
+/-- the identifier `n` (Integer) -/
+def iI (n : String) : TIdent := .integer n.toList
+
+/-- `S% = 0 : FOR I% = 1 TO 3 STEP 1 : S% = S% + I% : NEXT I%` -/
+def exForA : AStmt :=
+  .seq (.assign (0, 0) (0, 0) (iI "S%") (cI 0))
+    (.for (0, 0) (0, 0) (0, 0) (0, 0) (iI "I%") (cI 1) (cI 3) (cI 1)
+      (.assign (0, 0) (0, 0) (iI "S%") (.bin .add (0, 0) (vI "S%") (vI "I%"))))
+
+/-- `WHILE I% < 3 : IF I% > 1 THEN B% = 1 ELSE B% = 2 : I% = I% + 1 : WEND` -/
+def exNestA : AStmt :=
+  .while (0, 0) (0, 0) (.bin .less (0, 0) (vI "I%") (cI 3))
+    (.seq (.ifThenElse (0, 0) (.bin .greater (0, 0) (vI "I%") (cI 1)) (.assign (0, 0) (0, 0) (iI "B%") (cI 1))
+        (.assign (0, 0) (0, 0) (iI "B%") (cI 2)))
+      (.assign (0, 0) (0, 0) (iI "I%") (.bin .add (0, 0) (vI "I%") (cI 1))))
+
+example : exForA.erase = exFor := rfl
+example : exForA.erase.Pure ∧ exForA.Named ∧ exNestA.erase.Pure ∧ exNestA.Named := by decide
+/-- the statement list of the AST -/
+example : exForA.stmts =
+    [.let (0, 0) (.unary (0, 0) (iI "S%")) (cI 0),
+     .for (0, 0) (.unary (0, 0) (iI "I%")) (cI 1) (cI 3) (cI 1),
+     .let (0, 0) (.unary (0, 0) (iI "S%")) (.bin .add (0, 0) (vI "S%") (vI "I%")),
+     .next (0, 0) [.unary (0, 0) (iI "I%")]] := rfl
+
+/-- the model's generator and linker on line `10 <FOR program>`, an `end` pushed as `linkProg` does:
+    exactly `compile` at address 0, then the `end` -/
+example : (((Codegen.codegen (({} : Link).pushSymbol 10) exForA.stmts).1.push .end).1.link).1.ops.toList =
+    compile exForA.erase 0 ++ [.end] := by decide +kernel
+example : (((Codegen.codegen (({} : Link).pushSymbol 10) exForA.stmts).1.push .end).1.link).2 = [] := by decide +kernel
+/-- nested: the IF fragment carries its own labels, re-based when it is appended inside the loop -/
+example : (((Codegen.codegen (({} : Link).pushSymbol 10) exNestA.stmts).1.push .end).1.link).1.ops.toList =
+    compile exNestA.erase 0 ++ [.end] := by decide +kernel
+/-- … and behind a stored program (a clean link with code and a line label): address 3 -/
+example : (((Codegen.codegen ({ ops := #[.cls, .cls, .end], symbols := [(10, (0, 0))] } : Link) exNestA.stmts).1.push
+    .end).1.link).1.ops.toList = [.cls, .cls, .end] ++ compile exNestA.erase 3 ++ [.end] := by decide +kernel
+
+end generated
 
 end Thm.C01
 end Basic
